@@ -9,6 +9,8 @@ Template syntax (lines starting with //@ inside a .tmpl.rs file):
   //@                                                 between the signature and the body)
   //@  attr <verus attribute>                       (placed in front of the function, e.g. #[verifier::exec_allows_no_decreases_clause]
   //@                                                 where termination is explicitly NOT claimed)
+  //@  with_feature <feature>                       (what a build WITH the feature compiles: cfg(not(feature)) items dropped,
+  //@                                                cfg(feature) attributes erased)
   //@  strip_cfg <feature>                          (drop items guarded by #[cfg(feature = "<feature>")]: what a build without
   //@                                                 that feature compiles)
   //@  body_prefix <text>                           (proof hint placed right after the opening brace of the body; may only
@@ -64,11 +66,11 @@ def _loops(clean_body):
     return res
 
 
-def strip_cfg(text, feature):
-    """Remove every `#[cfg(feature = "<feature>")]` attribute together with the item it guards (a parameter, argument,
+def strip_cfg(text, feature, negated=False):
+    """Remove every `#[cfg(feature = "<feature>")]` (negated: `#[cfg(not(feature = "<feature>"))]`) attribute together with the item it guards (a parameter, argument,
     struct-expression field or statement: everything up to and including the first `,` or `;` at bracket depth 0, or up
     to the closing bracket of the enclosing list). This is what rustc does in a build without that feature."""
-    attr = re.compile(r'#\[cfg\(feature\s*=\s*"%s"\)\]\s*' % re.escape(feature))
+    attr = re.compile((r'#\[cfg\(not\(feature\s*=\s*"%s"\)\)\]\s*' if negated else r'#\[cfg\(feature\s*=\s*"%s"\)\]\s*') % re.escape(feature))
     while True:
         m = attr.search(text)
         if not m:
@@ -161,6 +163,7 @@ def expand_template(scratch, tmpl_path):
         if line.strip().startswith("//@extract"):
             args = dict(a.split("=", 1) for a in shlex.split(line.strip()[len("//@extract"):]))
             rewrites, specs, loops, prefix, loop_prefix, strip, attrs = [], [], {}, [], {}, [], []
+            with_feature = []
             i += 1
             while not lines[i].strip().startswith("//@end"):
                 l = lines[i].strip()
@@ -176,6 +179,8 @@ def expand_template(scratch, tmpl_path):
                     attrs.append(l[len("attr "):].strip())
                 elif l.startswith("strip_cfg "):
                     strip.append(l[len("strip_cfg "):].strip())
+                elif l.startswith("with_feature "):
+                    with_feature.append(l[len("with_feature "):].strip())
                 elif l.startswith("body_prefix "):
                     prefix.append(l[len("body_prefix "):])
                 elif l.startswith("loop_prefix "):
@@ -192,6 +197,10 @@ def expand_template(scratch, tmpl_path):
             text, line_no = fn_text(scratch, args["file"], args["fn"], args.get("within"), int(args.get("nth", "0")))
             for feat in strip:
                 text = strip_cfg(text, feat)
+            for feat in with_feature:
+                # what a build WITH the feature compiles: items under cfg(not(feature)) dropped, cfg(feature) attributes erased
+                text = strip_cfg(text, feat, negated=True)
+                text = re.sub(r'#\[cfg\(feature\s*=\s*"%s"\)\]\s*' % re.escape(feat), "", text)
             text = desugar_let_else(text)
             for rx, rep, optional in rewrites:
                 text, n = re.subn(rx, rep, text)
